@@ -1,6 +1,7 @@
 package gsim
 
 import (
+	"encoding/json"
 	"fmt"
 	"math/rand"
 	"time"
@@ -15,6 +16,9 @@ func c14Monitors(s *Sim) {
 }
 
 func runC14(sh *core.Shard, a props.Args) {
+	if !runC14Concurrent(sh, a) {
+		return
+	}
 	runs := a.Pick(400, 16000)
 	steps := a.Pick(600, 1500)
 	for i := 0; i < runs; i++ {
@@ -70,14 +74,26 @@ func runC14(sh *core.Shard, a props.Args) {
 func init() {
 	props.Register(&props.Prop{
 		ID: "C14", Level: "exploration",
-		Rule: "simulator runs (writes incl. empty values and re-creation of deleted keys, deletes, compaction, leave, crash, liveness, early/due/late/partial sweeps, late-starting nodes, loss/dup/delay/truncation, stream join/leave) with a recording watcher per node; after every step the notifications folded in order (join/leave/reachable/unreachable/upsert/delete/expired) must equal the node's visible view: same remote node set, per node the same non-deleted non-internal key/values, same left/unreachable flags; plus per-callback rules (join precedes keys, no callback about the local node or an unknown/expired node, no double join). Non-trivial = the run had compactions and truncated deltas; distinct = hash of (config, number of watcher events, event counts, final states).",
+		Rule: "simulator runs (writes incl. empty values and re-creation of deleted keys, deletes, compaction, leave, crash, liveness, early/due/late/partial sweeps, late-starting nodes, loss/dup/delay/truncation, stream join/leave) with a recording watcher per node; after every step the notifications folded in order (join/leave/reachable/unreachable/upsert/delete/expired) must equal the node's visible view: same remote node set, per node the same non-deleted non-internal key/values, same left/unreachable flags; plus per-callback rules (join precedes keys, no callback about the local node or an unknown/expired node, no double join). Concurrent leg: per round the recorded order must satisfy the per-callback rules and fold == view after all feeders returned. Non-trivial = the run had compactions and truncated deltas; distinct = hash of (config, number of watcher events, event counts, final states).",
 		Assumptions: []string{
 			"watcher callbacks are folded by a model that ignores deletes of keys it never held (a map delete)",
-			"sequentially consistent scheduler (callbacks run under the state mutex in piko as well)",
+			"the simulator legs use a sequentially consistent scheduler; the concurrent leg (fresh observer fed digests/deltas of mutually known owners from 3-5 goroutines released together, owners writing/deleting/compacting/leaving meanwhile, failure detector flips, liveness and expiry sweeps) is judged at quiescence only, with the OS scheduler choosing the interleavings",
 		},
-		RequireCounters: []string{"watcher_events", "compactions", "truncated_deltas", "watcher_expired_events", "watcher_delete_events", "watcher_unreachable_events", "watcher_reachable_events", "watcher_leave_events"},
+		RequireCounters: []string{"watcher_events", "compactions", "truncated_deltas", "watcher_expired_events", "watcher_delete_events", "watcher_unreachable_events", "watcher_reachable_events", "watcher_leave_events", "concurrent_rounds", "concurrent_join_events", "concurrent_upsert_events", "concurrent_delete_events", "concurrent_leave_events", "concurrent_unreachable_events", "concurrent_expired_events"},
 		Timeout:         simTimeout(10*time.Minute, 90*time.Minute),
 		Run:             runC14,
-		Replay:          replayWith(c14Monitors),
+		Replay: func(raw json.RawMessage) (string, bool) {
+			var cw concWitness
+			if json.Unmarshal(raw, &cw) == nil && cw.Kind == "concurrent" {
+				// the schedule is the operating system's: replay repeats the round
+				for i := 0; i < 20000; i++ {
+					if sig, what, _, _, _ := c14ConcRound(cw.Seed); sig != "" {
+						return fmt.Sprintf("[%s] %s (repetition %d)", sig, what, i), true
+					}
+				}
+				return "20000 repetitions of the round showed nothing; recorded: [" + cw.Sig + "] " + cw.What, false
+			}
+			return replayWith(c14Monitors)(raw)
+		},
 	})
 }
